@@ -310,6 +310,57 @@ fn check_pair(c: &PairCase, obs: &mut Obs) -> Result<(), String> {
     let dg = c.g.to_diag();
     let mut dh = c.h.to_diag();
     make_composable(&dg, &mut dh);
+    check_pair_diags(c, dg, dh, obs)
+}
+
+/// interface spiders of high degree: a spider of each side gets `leaves` closed one-legged
+/// neighbours and `m` extra seam wires, so that plugging joins two hubs by several wires at once
+#[derive(Clone, Debug, Serialize, Deserialize)]
+pub struct HubCase {
+    pub pair: PairCase,
+    pub g_hub: (u16, u8),
+    pub h_hub: (u16, u8),
+    pub m: u8,
+    pub bits: u16,
+}
+
+fn hubify(d: &mut Diag, raw: u16, leaves: u8, bits: u16) -> usize {
+    let spiders: Vec<usize> = (0..d.verts.len()).filter(|&i| d.verts[i].kind != VK::B).collect();
+    let hub = if spiders.is_empty() {
+        d.add_vert(if bits & 1 == 1 { VK::X } else { VK::Z }, (0, 1))
+    } else {
+        spiders[crate::gen::idx(raw, spiders.len())]
+    };
+    for j in 0..leaves as usize {
+        let kind = if (bits >> (j % 13)) & 1 == 1 { VK::X } else { VK::Z };
+        let phase = [(0, 1), (1, 4), (1, 1), (1, 2), (-1, 4), (3, 4)][(j + bits as usize) % 6];
+        let l = d.add_vert(kind, phase);
+        d.add_edge(hub, l, (bits >> ((j + 5) % 16)) & 1 == 1);
+    }
+    hub
+}
+
+fn check_hub(c: &HubCase, obs: &mut Obs) -> Result<(), String> {
+    let mut dg = c.pair.g.to_diag();
+    let mut dh = c.pair.h.to_diag();
+    make_composable(&dg, &mut dh);
+    let hg = hubify(&mut dg, c.g_hub.0, c.g_hub.1, c.bits);
+    let hh = hubify(&mut dh, c.h_hub.0, c.h_hub.1, c.bits.rotate_left(7));
+    for j in 0..(1 + c.m as usize % 3) {
+        let o = dg.add_vert(VK::B, (0, 1));
+        dg.add_edge(hg, o, (c.bits >> (j + 3)) & 1 == 1);
+        dg.outputs.push(o);
+        let i = dh.add_vert(VK::B, (0, 1));
+        dh.add_edge(hh, i, (c.bits >> (j + 9)) & 1 == 1);
+        dh.inputs.push(i);
+    }
+    obs.class_if(dg.degree(hg) > 8, "g-hub-degree>8");
+    obs.class_if(dh.degree(hh) > 8, "h-hub-degree>8");
+    obs.class_if(dg.degree(hg) > 16 || dh.degree(hh) > 16, "hub-degree>16");
+    check_pair_diags(&c.pair, dg, dh, obs)
+}
+
+fn check_pair_diags(c: &PairCase, dg: Diag, dh: Diag, obs: &mut Obs) -> Result<(), String> {
     let seam_h = dg
         .outputs
         .iter()
@@ -768,6 +819,28 @@ pub fn def(ctx: &Ctx) -> PropertyDef {
                     .prop_map(|(g, h)| PairCase { g, h })
             },
             check_pair,
+        ),
+        Section::random(
+            "pairs-hubs",
+            ctx.cases(1200, 24000),
+            move || {
+                let small = || {
+                    let mut p = DiagParams::general(3, 2, Palette::ExactT);
+                    p.max_wires = 1;
+                    diag_spec(p)
+                };
+                let leaves = || prop_oneof![2 => 0u8..=4, 3 => 5u8..=12, 1 => 13u8..=20];
+                (small(), small(), (any::<u16>(), leaves()), (any::<u16>(), leaves()), 0u8..3, any::<u16>()).prop_map(
+                    |(g, h, g_hub, h_hub, m, bits)| HubCase {
+                        pair: PairCase { g, h },
+                        g_hub,
+                        h_hub,
+                        m,
+                        bits,
+                    },
+                )
+            },
+            check_hub,
         ),
         Section::random(
             "basis-plugging",
